@@ -400,6 +400,18 @@ func ruleWire(c *Ctx) {
 					continue
 				}
 			}
+			if ws.pkg == "desc" && (ws.fn == "Attribute.Describe" || ws.fn == "Chord.Describe") {
+				if problem, n, ok := c.descPipelineByFolding(); ok {
+					c.check(problem == "", key, c.pos(fn.Pos()), fname(fn), fmt.Sprintf("%d descriptions folded from the built-in dictionary to the report (every attribute on 21 roots with both preferences, every chord symbol by name and by display on three roots): size, root, resulting note, octave offset, attributes parent first", n), "info attr / chord describe, folded from the dictionary to the report: "+problem)
+					continue
+				}
+			}
+			if ws.pkg == "desc" && ws.fn == "Key.Describe" {
+				if problem, n, ok := c.descKeyByFolding(); ok {
+					c.check(problem == "", key, c.pos(fn.Pos()), fname(fn), fmt.Sprintf("%d keys folded from NewScale to the report: the scale itself, and the triads and sevenths NewDiatonicChorder answers for it", n), "info key describe, folded from the scale to the report: "+problem)
+					continue
+				}
+			}
 			if ws.pkg == "cmd" && ws.fn == "readFileOrStdinFromArgs" {
 				if problem, n, ok := c.readArgsByFolding(); ok {
 					c.check(problem == "", key, c.pos(fn.Pos()), fname(fn), fmt.Sprintf("%d argument lists folded: a FILE is opened under exactly the name given and handed to the reader, `-`, an empty name and no argument read standard input", n), fname(fn)+": "+problem)
